@@ -56,11 +56,27 @@ class OsuNoteMeta:
         return int(floor(((512.0 * column) + 256.0) / keys))
 
     @staticmethod
+    def _has_type(s: str, flag: int) -> bool:
+        """Whether the type field (4th) of a HitObject line has this flag"""
+        try:
+            return bool(int(s.split(",")[3]) & flag)
+        except (IndexError, ValueError):
+            return False
+
+    @staticmethod
     def is_hit(s: str):
         """Checks if the string is a HitObject"""
-        return s.count(":") == 4 and s.count(",") == 5
+        if s.count(":") == 4 and s.count(",") == 5:
+            return True
+        # hitSample may be omitted, it defaults to 0:0:0:0:
+        return s.count(":") == 0 and s.count(",") == 4 and OsuNoteMeta._has_type(s, 1)
 
     @staticmethod
     def is_hold(s: str):
         """Checks if the string is a HoldObject"""
-        return s.count(":") == 5 and s.count(",") == 5
+        if s.count(":") == 5 and s.count(",") == 5:
+            return True
+        # hitSample may be omitted, it defaults to 0:0:0:0:
+        return (
+            s.count(":") == 0 and s.count(",") == 5 and OsuNoteMeta._has_type(s, 128)
+        )
